@@ -18,7 +18,7 @@ class ContractBroken(Exception):
 
 
 def _broken(name):
-    def make(**kw):
+    def make():
         return ContractBroken('post-condition of %s failed' % name, name=name)
     return make
 
